@@ -23,6 +23,43 @@ import (
 
 func init() { register("history", opHistory) }
 
+// failWriter accepts n bytes and fails from then on.
+type failWriter struct{ n int }
+
+func (w *failWriter) Write(p []byte) (int, error) {
+	if len(p) > w.n {
+		k := w.n
+		w.n = 0
+		return k, errWriterFailed
+	}
+	w.n -= len(p)
+	return len(p), nil
+}
+
+var errWriterFailed = fmt.Errorf("verif: writer failed")
+
+// observeFaulty runs the observer with a writer that fails after n bytes; a panic carrying the writer's error is what the
+// dumper documents (it panics on write errors) and is recovered as the caller would; any other panic goes on.
+func observeFaulty(op string, root ast.Vertex, n int) {
+	defer func() {
+		if r := recover(); r != nil {
+			if e, ok := r.(error); ok && e == errWriterFailed {
+				return
+			}
+			panic(r)
+		}
+	}()
+	w := &failWriter{n: n}
+	switch op {
+	case "print":
+		root.Accept(printer.NewPrinter(w))
+	case "dump11":
+		dumper.NewDumper(w).WithTokens().WithPositions().Dump(root)
+	default:
+		panic("verif: unknown faulty observer " + op)
+	}
+}
+
 // observe applies one observer to the tree and renders its output as a string.
 func observe(op string, root ast.Vertex) string {
 	switch op {
@@ -124,6 +161,9 @@ func opHistory(t Task) Result {
 	// baseline: every observer on its own freshly parsed tree
 	base := map[string]string{}
 	for _, op := range hist {
+		if strings.HasSuffix(op, "!") {
+			continue
+		}
 		if _, ok := base[op]; !ok {
 			p := doParse(append([]byte(nil), orig...), ver, true)
 			if isNilVertex(p.root) || len(p.errs) > 0 {
@@ -139,6 +179,16 @@ func opHistory(t Task) Result {
 		outs[op] = shortHash(o)
 	}
 	for i, op := range hist {
+		if strings.HasSuffix(op, "!") {
+			plain := strings.TrimSuffix(op, "!")
+			full := len(observe(plain, doParse(append([]byte(nil), orig...), ver, true).root))
+			observeFaulty(plain, p.root, full/2)
+			observeFaulty(plain, p.root, 0)
+			if deepFingerprint(p.root) != fp0 {
+				return Result{"diverged": i, "op": op, "what": "tree"}
+			}
+			continue
+		}
 		out := observe(op, p.root)
 		if out != base[op] {
 			d := 0
